@@ -8,10 +8,6 @@ import DtnVerif.Lemmas.TcpclCodec
 namespace DtnVerif
 namespace Tcpcl
 
-def encodeAll : List Msg → Bytes
-  | [] => []
-  | m :: ms => encode m ++ encodeAll ms
-
 theorem encodeAll_append (a b : List Msg) : encodeAll (a ++ b) = encodeAll a ++ encodeAll b := by
   induction a with
   | nil => rfl
